@@ -88,7 +88,7 @@ def vacuity(ex):
     normal exit must be reachable (otherwise every postcondition holds vacuously)."""
     res = []
     s = z3.Solver()
-    s.set('timeout', Z3_TIMEOUT_MS)
+    s.set('timeout', max(Z3_TIMEOUT_MS, 90000))
     for a in ex.assumes:
         s.add(a)
     r = s.check()
